@@ -1,6 +1,15 @@
 /-
-  Engine `meta` (C17).  Op line:  `<block-hex> <key-hex> [ignored…]`
-  Output line: `P <pairs> G <get> F <find> L <len> U <len-unstripped>`
+  Engine `meta` (C17).  Op lines (the same as `harness/meta.cpp`):
+    `<block-hex> <key-hex> <spec>`        block of the statement      → `P <pairs> G <get> F <find> L <len>`
+    `<block-hex> <key-hex> ?`             block outside the statement → `V ok` | `V oob`
+    `M <i> <key-hex> <spec>`              row i of the harness's fixed port table (written with the macros of
+                                          rtosc/port-sugar.h); the driver does not know the table: it prints
+                                          `M <hex of serialize spec> P …`, so the lines agree only if the macros
+                                          produce exactly `serialize` of the listed entries
+    `M <i> <key-hex> ? <block-hex>`       row outside the statement (rSpecial): classification of the model on
+                                          the bytes the generator believes the row has → `V ok` | `V oob`
+  `<spec>` is `k=v;k=N;…` (hex, `-` empty, `N` no value).
+  A 0-byte block stands for `metadata == NULL` (both sides).
 -/
 import RtoscModel.Meta
 import Driver.Common
@@ -16,17 +25,66 @@ def showPairs (ps : List Pair) : String :=
   ",".intercalate (ps.map fun p =>
     toHex p.1 ++ "=" ++ (match p.2 with | none => "NULL" | some v => toHex v))
 
+/-- tail-recursive hex decoding (blocks of > 64 KiB are generated) -/
+def unhexGo : List Char → Array UInt8 → Option (Array UInt8)
+  | [], acc => some acc
+  | [_], _ => none
+  | a :: b :: r, acc =>
+    match hexVal a, hexVal b with
+    | some x, some y => unhexGo r (acc.push (UInt8.ofNat (x * 16 + y)))
+    | _, _ => none
+
+def unhex (s : String) : Option Bytes :=
+  if s = "-" then some [] else (unhexGo s.toList #[]).map Array.toList
+
+/-- the container `Port::meta()` builds; a 0-byte block is the NULL metadata pointer -/
+def containerOf (block : Bytes) : Option Ptr :=
+  if block.isEmpty then portMeta none else container block
+
+def readers (block key : Bytes) : String :=
+  let c : Option Ptr := containerOf block
+  let ps := Option.bind c fun m => pairs m
+  let g := Option.bind c fun m => lookup m key
+  let f := Option.bind c fun m => find m key
+  let l := Option.bind c fun m => length m
+  s!"P {showOpt showPairs ps} G {showOpt (fun (v : Option Bytes) => match v with | none => "NULL" | some v => toHex v) g} F {showOpt (fun (b : Bool) => if b then "1" else "0") f} L {showOpt toString l}"
+
+/-- classification only: does any of the four readers read past the block? -/
+def classify (block key : Bytes) : String :=
+  match containerOf block with
+  | none => "V oob"
+  | some m =>
+    if (pairs m).isSome && (lookup m key).isSome && (find m key).isSome && (length m).isSome
+    then "V ok" else "V oob"
+
+def parseEntry (s : String) : Option (Bytes × Option Bytes) :=
+  match s.splitOn "=" with
+  | [k, v] => do
+    let kb ← unhex k
+    if v = "N" then pure (kb, none) else do
+      let vb ← unhex v
+      pure (kb, some vb)
+  | _ => none
+
+def parseSpec (s : String) : Option (List (Bytes × Option Bytes)) :=
+  (s.splitOn ";").mapM parseEntry
+
 def step (line : String) : String :=
   match words line with
-  | b :: k :: _ =>
-    match ofHex b, ofHex k with
+  | "M" :: _ :: k :: "?" :: b :: _ =>
+    match unhex b, unhex k with
+    | some block, some key => classify block key
+    | _, _ => "bad-op"
+  | "M" :: _ :: k :: spec :: _ =>
+    match parseSpec spec, unhex k with
+    | some es, some key =>
+      let block := serialize es
+      "M " ++ toHex block ++ " " ++ readers block key
+    | _, _ => "bad-op"
+  | b :: k :: rest =>
+    match unhex b, unhex k with
     | some block, some key =>
-      let c : Option Ptr := container block
-      let ps := Option.bind c fun m => pairs m
-      let g := Option.bind c fun m => lookup m key
-      let f := Option.bind c fun m => find m key
-      let l := Option.bind c fun m => length m
-      s!"P {showOpt showPairs ps} G {showOpt (fun (v : Option Bytes) => match v with | none => "NULL" | some v => toHex v) g} F {showOpt (fun (b : Bool) => if b then "1" else "0") f} L {showOpt toString l}"
+      if rest.head? = some "?" then classify block key else readers block key
     | _, _ => "bad-op"
   | _ => "bad-op"
 
